@@ -96,6 +96,39 @@ def parity_worker(job):
     return dict(cfg=cfg, problems=problems)
 
 
+def object_worker(job):
+    """The statement at the level of the image objects: (g.A).convolve_with(g.C) == g.(A.convolve_with(C)) with g applied by
+    the library's own times_group_element, so that extents AND per-axis boundary flags have to travel with their axes
+    through the whole expression (data, declared type and flags of both sides are compared)."""
+    repo, D, N, flags, (ki, pi), (kf, pf), g = job
+    it, w = get_interp(repo)
+    geom = it.get_module(GEOM)
+    cfg = dict(D=D, image_shape=list(N), is_torus=list(flags), image=[ki, pi], filter=[kf, pf], g=g, level="GeometricImage objects")
+    problems = []
+    a = geom.GeometricImage(A.leaf("A", tuple(N) + (D,) * ki), pi, D, tuple(flags))
+    c = geom.GeometricFilter(A.leaf("C", (3,) * D + (D,) * kf), pf, D, tuple(flags))
+    gg = A.as_arr(g)
+
+    def lhs():
+        return a.times_group_element(gg).convolve_with(c.times_group_element(gg))
+
+    def rhs():
+        return a.convolve_with(c).times_group_element(gg)
+
+    L, R = attempt(lhs), attempt(rhs)
+    if isinstance(L, Rejected) or isinstance(R, Rejected):
+        bad = L if isinstance(L, Rejected) else R
+        problems.append(("rejected", "%s rejected: %s" % ("(g.A)*(g.C)" if isinstance(L, Rejected) else "g.(A*C)", bad.exc), None))
+        return dict(cfg=cfg, problems=problems)
+    if (L.k, L.parity, L.D) != (R.k, R.parity, R.D):
+        problems.append(("type", "(g.A)*(g.C) is declared (k=%r, parity=%r), g.(A*C) is declared (k=%r, parity=%r)" % (L.k, L.parity, R.k, R.parity), None))
+    elif tuple(L.is_torus) != tuple(R.is_torus):
+        problems.append(("equivariance", "(g.A)*(g.C) carries boundary flags %r, g.(A*C) carries %r: the flags do not travel with their axes" % (tuple(L.is_torus), tuple(R.is_torus)), None))
+    elif L.data.shape != R.data.shape or not same_elems(L.data, R.data):
+        problems.append(("equivariance", "(g.A).convolve_with(g.C) != g.(A.convolve_with(C)) for g=%s with boundary flags %s: %s" % (g, list(flags), first_diff(L.data, R.data) if L.data.shape == R.data.shape else "shape %r vs %r" % (L.data.shape, R.data.shape)), site_of(L.data)))
+    return dict(cfg=cfg, problems=problems)
+
+
 def run(ctx):
     ev, pm = ctx.ev, ctx.pm
     ev.explanation = (
@@ -166,6 +199,24 @@ def run(ctx):
     for job, r in ctx.pairs(parity_worker, pj):
         cfg = r["cfg"]
         ev.obligation("declared-type", not r["problems"], tuple(str(v) for v in cfg.values()), sample=cfg if cfg["image"] == [1, 1] and cfg["filter"] == [1, 0] else None)
+        for kind, what, site in r["problems"]:
+            by.setdefault(("GeometricImage.convolve_with", GI_MOD, kind), []).append((what, site, cfg))
+    # object level: generators and the axis-cycling elements (order-3 in D=3: the ones where g and g^-1 move flags differently)
+    oj = []
+    for D in (2, 3):
+        Gs = generators(D)
+        if D == 3:
+            Gs = Gs + [[[0, 1, 0], [0, 0, 1], [1, 0, 0]], [[0, 0, -1], [1, 0, 0], [0, 1, 0]]]
+        shapes = [((3, 4), (True, False)), ((4, 3), (False, True))] if D == 2 else [((3, 4, 3), (True, True, False)), ((3, 3, 4), (False, True, False))]
+        for N, flags in shapes:
+            for ti, tf in (((0, 0), (0, 0)), ((1, 0), (0, 1))) if (th or D == 2) else (((0, 0), (0, 0)),):
+                for g in Gs:
+                    oj.append((ctx.repo, D, N, flags, ti, tf, g))
+    pm.func(GI_MOD, "GeometricImage.times_group_element")
+    ev.functions.add(GI_MOD + ".GeometricImage.times_group_element")
+    for job, r in ctx.pairs(object_worker, oj):
+        cfg = r["cfg"]
+        ev.obligation("object-level equivariance", not r["problems"], tuple(str(v) for v in cfg.values()), sample=cfg if ev.obligations % 31 == 0 else None)
         for kind, what, site in r["problems"]:
             by.setdefault(("GeometricImage.convolve_with", GI_MOD, kind), []).append((what, site, cfg))
     for (q, mod, kind), items in sorted(by.items()):
